@@ -295,6 +295,14 @@ AfterRx2Complete(m) ==
                       !.sess.adrCnt = c,
                       !.cfg.dr = IF step THEN LowerDr(m.region, m.cfg.dr) ELSE m.cfg.dr]
 
+\* The receive procedure of a transmitted uplink is aborted (radio fault): the counter of the frame on
+\* air is consumed unless a reception already did so; when the counter space is exhausted the session
+\* ends (the expiry cannot be reported through the aborted call).  up0: counter of that uplink.
+AfterAbort(m, up0) ==
+    IF ~Joined(m) \/ m.sess.up # up0 THEN m
+    ELSE IF SessionExpired(m) THEN [m EXCEPT !.act = "unjoined", !.sess = EmptySess]
+    ELSE AfterRx2Complete(m)
+
 \* ------------------------------------------------------------------ accepted downlink
 \* Fold the requests of one command stream.  `sts` gives the status byte for each request
 \* (from the specification itself in model checking, from the observed answers in trace validation).
